@@ -23,7 +23,7 @@ fn spec() -> Spec {
             Kind { name: "continuity", quick: 500_000, thorough: 10_000_000, serial: false },
             Kind { name: "continuity_with_shape", quick: 3_000, thorough: 100_000, serial: false },
         ],
-        rule: "detection: non-degenerate robot (64 sign patterns, zero / right-angle / uniform offsets) x q with model angle t5 = k*pi + delta, k=-2..2, delta = +-{0,1e-9,0.5,0.9}*band (must be reported singular) or +-{1.1,2,100}*band (must not), band = 0.01 degree; expectation decided geometrically from the angle between the J4 axis and the J6 axis of the reference chain. continuity: t5 = 0 exactly, requested pose = FK(q); (1) previous = q: first continuation answer must equal q; (2) previous = q with J4,J6 shifted by (+e,-e'): an answer on the same arm with J5 at the singularity must have moved J4 and J6 by the same model-angle amount. Evaluated only when the arm sensitivity ||J_wc^-1||_F <= 3 rad/m and no other IK branch is within 0.02 rad of singular. non-trivial = conclusive case; distinct = hash(robot, q)",
+        rule: "detection: non-degenerate robot (64 sign patterns, zero / right-angle / uniform offsets) x q with model angle t5 = k*pi + delta, k=-2..2, delta = +-{0,1e-9,0.5,0.9}*band (must be reported singular) or +-{1.1,2,100}*band (must not), band = 0.01 degree; expectation decided geometrically from the angle between the J4 axis and the J6 axis of the reference chain. continuity: t5 = 0 exactly, requested pose = FK(q); (1) previous = q: first continuation answer must equal q; (2) previous = q with J4,J6 shifted by (+e,-e'): an answer on the same arm with J5 at the singularity must have moved J4 and J6 by the same model-angle amount. Evaluated only when the arm sensitivity ||J_wc^-1||_F <= 3 rad/m and no other IK branch is within 0.02 rad of singular. non-trivial = conclusive case; distinct = hash(robot, q) Workload additions: clause 1c (CONSTRAINT_CENTERED with limits centred on q), clause 2b (previous J5 0.3..2 degrees outside the band); solvers built through either constructor; kind continuity_with_shape = clause 1 through KinematicsWithShape, 12 repeated calls per scene.",
         assumptions: vec![
             "band edge: cases whose geometric deviation is within 1% of the band are not generated / inconclusive",
             "continuity tolerance 4*S + 1.5e-6 per joint with S = 1.25e-7 * ||J_wc^-1||_F (sensitivity of the arm to the solver's 0.125 um singularity shift) plus the solver's stated angular accuracy of 1e-6 rad",
@@ -358,6 +358,36 @@ fn continuity(idx: u64, rng: &mut Rng, mon: &mut Mon) {
             mon.held();
         } else {
             mon.violation(&format!("continuity:j4-j6-unequal-move:entering:signs46={}", signs), "previous J5 just outside the band, requested pose exactly singular: no answer on the previous arm moves J4 and J6 by the same amount", detail("equal-move-entering", &prev, &sols, json!({"smallest_mismatch": if best.is_finite() { json!(best) } else { json!("no answer on the arm") }})));
+        }
+    }
+    // clause 2c: as 2b, but the previous J5 is INSIDE the band without being zero (a trajectory sampled finer than
+    // the band): 1e-7 .. 1.5e-4 rad on either side
+    {
+        let mut prev = q;
+        prev[3] += rng.range(-1.0, 1.0);
+        prev[5] -= rng.range(-1.0, 1.0);
+        prev[4] += rng.sign() * rng.logu(1e-7, 1.5e-4);
+        let sols = kin.inverse_continuing(&pose, &prev);
+        let mut found = false;
+        let mut best = f64::INFINITY;
+        for s in &sols {
+            let on_arm = (0..3).all(|j| circ_dist(s[j], q[j]) <= 1e-6 + s_tol) && circ_dist(s[4], q[4]) <= 1e-3;
+            if !on_arm {
+                continue;
+            }
+            let d4 = wrap(s[3] - prev[3]) * rp.signs[3] as f64;
+            let d6 = wrap(s[5] - prev[5]) * rp.signs[5] as f64;
+            let diff = circ_dist(d4, d6);
+            best = best.min(diff);
+            if diff <= 1e-6 {
+                found = true;
+            }
+        }
+        mon.count("continuity.previous_j5_inside_the_band");
+        if found {
+            mon.held();
+        } else {
+            mon.violation(&format!("continuity:j4-j6-unequal-move:previous-inside-band:signs46={}", signs), "previous J5 inside the band (not zero), requested pose exactly singular: no answer on the previous arm moves J4 and J6 by the same amount", detail("equal-move-inside-band", &prev, &sols, json!({"smallest_mismatch": if best.is_finite() { json!(best) } else { json!("no answer on the arm") }})));
         }
     }
     // clause 1c: the CONSTRAINT_CENTERED sentinel with limits centred on q: the centres play the role of the
